@@ -399,6 +399,7 @@ def apply_ops(root, ops, dtd):
     return root
 
 
+NGROUPS = 61
 CONTAINERS = ("schema", "sectiontype")
 ITEMS = ("key", "multikey", "section", "multisection")
 BAD_NAME = "bad name!"      # invalid under all three key types
@@ -745,8 +746,9 @@ class Work:
         """Outcome of the plain and, if applicable, the componentised form."""
         res = [("plain", load(render(tree)), render(tree))]
         if allow_component and not top_only:
-            pkg = "c10pkg_%d" % idx
-            d = os.path.join(self.tmp, pkg)
+            # sharded so that no directory on the import path grows large
+            pkg = "c10r.g%d.p%d" % (idx % NGROUPS, idx)
+            d = os.path.join(self.tmp, *pkg.split("."))
             if not os.path.isdir(d):
                 os.mkdir(d)
                 with open(os.path.join(d, "__init__.py"), "w"):
@@ -875,6 +877,11 @@ def run(tier, seed):
     npairs = 120 if tier == "thorough" else 40
     tmp = tempfile.mkdtemp(prefix="c10_")
     try:
+        for d in [os.path.join(tmp, "c10r")] + [
+                os.path.join(tmp, "c10r", "g%d" % g) for g in range(NGROUPS)]:
+            os.mkdir(d)
+            with open(os.path.join(d, "__init__.py"), "w"):
+                pass
         sys.path.insert(0, tmp)
         nparts = 4
         parts = pmap(work, [(seed, i, tmp, npairs // nparts, k, nparts)
@@ -883,6 +890,8 @@ def run(tier, seed):
     finally:
         if tmp in sys.path:
             sys.path.remove(tmp)
+        for name in [m for m in sys.modules if m.startswith("c10r")]:
+            del sys.modules[name]
         shutil.rmtree(tmp, ignore_errors=True)
     for p in parts:
         col.merge(p)
